@@ -74,14 +74,16 @@ func zzConcSmall(x, hi int) int {
 // bound nor more update-deletions than maxUnavailable.
 func ZZ_C09_caps() {
 	n := zzNumNodes(3, 5)
-	// categories restricted to what matters for creation: no pod / up-to-date / outdated available
+	// categories: no pod / up-to-date / outdated available / outdated unavailable
 	cats := make([]int, n)
 	for i := range cats {
-		switch nondet.Int("cat"+strconv.Itoa(i), 0, 2) {
+		switch nondet.Int("cat"+strconv.Itoa(i), 0, 3) {
 		case 0:
 			cats[i] = zzNoPod
 		case 1:
 			cats[i] = zzUpToDateAvailable
+		case 2:
+			cats[i] = zzOutdatedUnavailable
 		default:
 			cats[i] = zzOutdatedAvailable
 		}
@@ -129,4 +131,5 @@ func ZZ_C09_caps() {
 	nondet.Observe("nCreate", len(res.PodsToCreate))
 	nondet.Reach("C09.caps.limited", nondet.And(int64(len(res.PodsToCreate)) == bound, missing > len(res.PodsToCreate)))
 	nondet.Reach("C09.caps.all", nondet.And(len(res.PodsToCreate) == missing, missing >= 2))
+	nondet.Reach("C09.caps.delete-capped", nondet.And(len(res.PodsToDelete) == int(ds.Spec.Strategy.RollingUpdate.MaxUnavailable.IntVal), len(res.PodsToDelete) >= 1, len(res.PodsToDelete) < n-missing))
 }
